@@ -2,6 +2,7 @@ package main
 
 import (
 	"fmt"
+	"strings"
 
 	"golang.org/x/tools/go/ssa"
 )
@@ -49,7 +50,7 @@ func ruleR02_3(c *Ctx) {
 	recv := f.Params[0]
 	const authCall = "(rt.Authenticator).Authenticate"
 	calls := callsIn(f, authCall)
-	c.obF("R02.3", f, "consults-authenticators", len(calls) >= 1, "the AND group consults the registered authenticators", "no call of runtime.Authenticator.Authenticate found")
+	c.obRF("R02.3", f, "consults-authenticators", len(calls) >= 1, "the AND group consults the registered authenticators", "no call of runtime.Authenticator.Authenticate found")
 	rets := returnsOf(f)
 	for _, ci := range calls {
 		a := ci.(*ssa.Call)
@@ -186,7 +187,7 @@ func ruleR02_3(c *Ctx) {
 	}
 	// every scheme consults an authenticator
 	loops := sliceLoops(f, vFieldLoad(routeAuthT, "Schemes", nil))
-	c.obF("R02.3", f, "scheme-loop", len(loops) == 1, "the AND group iterates over ra.Schemes", fmt.Sprintf("%d loops over ra.Schemes", len(loops)))
+	c.obRF("R02.3", f, "scheme-loop", len(loops) == 1, "the AND group iterates over ra.Schemes", fmt.Sprintf("%d loops over ra.Schemes", len(loops)))
 	for _, l := range loops {
 		ok := l.everyIteration(isInvokeOf(authCall))
 		c.obI("R02.3", l.Elem, "every-scheme-consults-an-authenticator", ok,
@@ -200,7 +201,7 @@ func ruleR02_4(c *Ctx) {
 	f := c.P.Fn("(rt/middleware.RouteAuthenticators).Authenticate")
 	const grp = "(*rt/middleware.RouteAuthenticator).Authenticate"
 	calls := callsIn(f, grp)
-	c.obF("R02.4", f, "consults-groups", len(calls) == 1, "the OR composition evaluates each alternative through RouteAuthenticator.Authenticate", fmt.Sprintf("%d calls", len(calls)))
+	c.obRF("R02.4", f, "consults-groups", len(calls) == 1, "the OR composition evaluates each alternative through RouteAuthenticator.Authenticate", fmt.Sprintf("%d calls", len(calls)))
 	if len(calls) != 1 {
 		return
 	}
@@ -228,7 +229,29 @@ func ruleR02_4(c *Ctx) {
 			ok, _ := allOrigins(v, func(o Origin) bool { _, isB := constBool(o.V); return isB })
 			return ok
 		}
-		gAnon := guardedBy(r, nil, factBool(isAnonFlag, true))
+		// the same knowledge kept as a pointer: nil until an alternative allowing anonymous access was seen
+		allowsAnonCall := factBool(func(v ssa.Value) bool {
+			call := asCall(v)
+			return call != nil && strings.HasSuffix(calleeName(&call.Call), ".AllowsAnonymous")
+		}, true)
+		isAnonPtr := func(v ssa.Value) bool {
+			if typeStr(v.Type()) != "*rt/middleware.RouteAuthenticator" {
+				return false
+			}
+			nonNil := 0
+			for _, o := range originsOf(v) {
+				if isNilConst(o.V) {
+					continue
+				}
+				al, isAl := o.V.(*ssa.Alloc)
+				if !isAl || !guardedBy(al, nil, allowsAnonCall) {
+					return false
+				}
+				nonNil++
+			}
+			return nonNil > 0
+		}
+		gAnon := guardedBy(r, nil, anyFact(factBool(isAnonFlag, true), factNil(isAnonPtr, false)))
 		gNoErr := guardedBy(r, nil, factNil(isLastErr, true))
 		gErr := guardedBy(r, nil, factNil(isLastErr, false))
 		errRes := r.Results[2]
@@ -265,7 +288,7 @@ func ruleR02_4(c *Ctx) {
 		c.obI("R02.4", lastInstr(pred), "rejection-is-sticky", ok, "the recorded rejection (lastError) is only overwritten by a non-nil error of a later alternative", "lastError can be overwritten by a nil error: an earlier rejection is forgotten")
 		n++
 	}
-	c.obF("R02.4", f, "records-rejection", n >= 1, "a rejecting alternative's error is recorded", "no assignment of the alternative's error to the recorded error found")
+	c.obRF("R02.4", f, "records-rejection", n >= 1, "a rejecting alternative's error is recorded", "no assignment of the alternative's error to the recorded error found")
 	// every non-anonymous alternative is evaluated
 	for _, l := range sliceLoops(f, vIs(f.Params[0])) {
 		ok := l.everyIteration(func(in ssa.Instruction) bool {
@@ -294,7 +317,7 @@ func ruleR02_5(c *Ctx) {
 	request := paramOf(f, 0)
 	const authn = "(rt/middleware.RouteAuthenticators).Authenticate"
 	calls := callsIn(f, authn)
-	c.obF("R02.5", f, "authenticates", len(calls) == 1, "Authorize evaluates the route's alternatives once", fmt.Sprintf("%d calls", len(calls)))
+	c.obRF("R02.5", f, "authenticates", len(calls) == 1, "Authorize evaluates the route's alternatives once", fmt.Sprintf("%d calls", len(calls)))
 	if len(calls) != 1 {
 		return
 	}
@@ -461,7 +484,7 @@ func ruleR02_2(c *Ctx) {
 	const serve = "(net/http.Handler).ServeHTTP"
 	nexts := callsIn(f, serve)
 	authz := callsIn(f, "(*rt/middleware.Context).Authorize")
-	c.obF("R02.2", f, "authorizes", len(authz) == 1 && len(nexts) >= 1, "the secure wrapper calls Context.Authorize and forwards to the next handler", fmt.Sprintf("%d Authorize calls, %d next calls", len(authz), len(nexts)))
+	c.obRF("R02.2", f, "authorizes", len(authz) == 1 && len(nexts) >= 1, "the secure wrapper calls Context.Authorize and forwards to the next handler", fmt.Sprintf("%d Authorize calls, %d next calls", len(authz), len(nexts)))
 	if len(authz) != 1 {
 		return
 	}
@@ -565,10 +588,16 @@ func ruleR02_1(c *Ctx) {
 			regs = append(regs, mu)
 		}
 	}
-	c.obF("R02.1", f, "registers-handlers", len(regs) == 1, "newRoutableUntypedAPI registers one handler per operation", fmt.Sprintf("%d handler registrations", len(regs)))
+	c.obRF("R02.1", f, "registers-handlers", len(regs) == 1, "newRoutableUntypedAPI registers one handler per operation", fmt.Sprintf("%d handler registrations", len(regs)))
 	secCalls := callsIn(f, "rt/middleware.newSecureAPI")
 	reqCalls := callsIn(f, "(*github.com/go-openapi/analysis.Spec).SecurityRequirementsFor")
-	c.obF("R02.1", f, "consults-requirements", len(secCalls) == 1 && len(reqCalls) == 1, "the operation's security requirements decide whether the handler is wrapped by newSecureAPI", fmt.Sprintf("%d newSecureAPI calls, %d SecurityRequirementsFor calls", len(secCalls), len(reqCalls)))
+	c.obRF("R02.1", f, "consults-requirements", len(secCalls) == 1 && len(reqCalls) == 1, "the operation's security requirements decide whether the handler is wrapped by newSecureAPI", fmt.Sprintf("%d newSecureAPI calls, %d SecurityRequirementsFor calls", len(secCalls), len(reqCalls)))
+	// the wrapper is there but what decides it is not the analyzer's effective requirement list (operation-level
+	// requirements OR the inherited top-level ones): a property violation, whatever else has changed
+	for _, sc := range secCalls {
+		byReqs := guardedBy(sc, nil, factLenPositive(vOrigins(oCall(-1, "(*github.com/go-openapi/analysis.Spec).SecurityRequirementsFor")), true))
+		c.obI("R02.1", sc, "wrapped-iff-effective-requirements", byReqs, "an operation is wrapped by newSecureAPI exactly when analyzer.SecurityRequirementsFor(op) — the EFFECTIVE requirements, top-level ones included — is non-empty", "the secure wrapper is installed under a condition that is not `len(analyzer.SecurityRequirementsFor(op)) > 0`")
+	}
 	if len(regs) != 1 || len(secCalls) != 1 || len(reqCalls) != 1 {
 		return
 	}
@@ -607,11 +636,11 @@ func ruleR02_1(c *Ctx) {
 	c.obI("R02.1", regs[0], "secured-when-required", okGate, "an operation with at least one security requirement is registered wrapped by newSecureAPI", why)
 	// requirement lookup concerns the same operation as the handler lookup
 	ohCalls := callsIn(f, "(*rt/middleware/untyped.API).OperationHandlerFor")
-	c.obF("R02.1", f, "handler-lookup", len(ohCalls) == 1, "the operation handler is looked up once per operation", "")
+	c.obRF("R02.1", f, "handler-lookup", len(ohCalls) == 1, "the operation handler is looked up once per operation", "")
 	// inner: handler only after successful binding
 	handle := callsIn(inner, "(rt.OperationHandler).Handle")
 	bind := callsIn(inner, "(*rt/middleware.Context).BindAndValidate")
-	c.obF("R02.1", inner, "binds-then-handles", len(handle) == 1 && len(bind) == 1, "the operation closure binds and validates, then calls the operation handler", fmt.Sprintf("%d Handle, %d BindAndValidate", len(handle), len(bind)))
+	c.obRF("R02.1", inner, "binds-then-handles", len(handle) == 1 && len(bind) == 1, "the operation closure binds and validates, then calls the operation handler", fmt.Sprintf("%d Handle, %d BindAndValidate", len(handle), len(bind)))
 	if len(handle) == 1 && len(bind) == 1 {
 		b := bind[0].(*ssa.Call)
 		verr := resultOf(b, 2)
@@ -632,7 +661,7 @@ func ruleR02_6(c *Ctx) {
 		return
 	}
 	outer := sliceLoops(f, vIs(alts))
-	c.obF("R02.6", f, "outer-loop", len(outer) == 1, "one pass over the requirement alternatives", fmt.Sprintf("%d loops", len(outer)))
+	c.obRF("R02.6", f, "outer-loop", len(outer) == 1, "one pass over the requirement alternatives", fmt.Sprintf("%d loops", len(outer)))
 	if len(outer) != 1 {
 		return
 	}
@@ -654,7 +683,7 @@ func ruleR02_6(c *Ctx) {
 		return ok && ad == ssa.Value(reqs)
 	})
 	inner := sliceLoops(f, isReqs)
-	c.obF("R02.6", f, "inner-loop", len(inner) == 1, "one pass over the schemes of each alternative", fmt.Sprintf("%d loops", len(inner)))
+	c.obRF("R02.6", f, "inner-loop", len(inner) == 1, "one pass over the schemes of each alternative", fmt.Sprintf("%d loops", len(inner)))
 	if len(inner) == 1 {
 		okS := inner[0].everyIteration(isAppendOf("[]string"))
 		c.obI("R02.6", inner[0].Elem, "every-scheme-listed", okS, "every scheme of an alternative is added to Schemes", "a scheme can be skipped")
